@@ -744,6 +744,138 @@ theorem plain_eq_rich_minus_colour (blocks : List Block) (showProc : Bool) (b c 
     cases blockRows false showProc b c blk <;> cases metricsTable rest false showProc b c <;>
       simp [Except.map]
 
+/-! ## sizes: the value shown, times the unit, is the value stored -/
+
+/-- **size_conversion_exact**: dividing by 1024 is exact in binary floating point, so for every unit the model of
+    `convert.bytes_to_unit(unit, v)` shows exactly `v / (bytes per unit)` – no rounding at all (for a Python float,
+    or an int that converts to float exactly) -/
+theorem size_conversion_exact (u : HUnit) (v : Val) (hx : v.exact) (hd : v.dbl) :
+    (u.fmt.apply v).rat * u.factor = v.rat := by
+  have haux := Fmt_bytes_exact_aux hd
+  have hval := toSM_val_of_exact hx
+  by_cases ht : v.truthy = true
+  · cases u
+    · simp only [HUnit.fmt, HUnit.factor]
+      rw [rat_of_flt_apply _ (by decide) v ht, haux.1, hval]
+    · simp only [HUnit.fmt, HUnit.factor]
+      rw [rat_of_flt_apply _ (by decide) v ht, haux.2.1, hval]
+    · simp only [HUnit.fmt, HUnit.factor]
+      rw [rat_of_flt_apply _ (by decide) v ht, haux.2.2, hval]
+    · simp [HUnit.fmt, HUnit.factor, Fmt.apply]
+  · have hf : v.truthy = false := by simpa using ht
+    have h0 := rat_zero_of_not_truthy hf
+    cases u <;> simp [HUnit.fmt, HUnit.factor, Fmt.apply, hf, h0]
+
+/-- **unit_choice**: `bytes_to_human_unit` picks the largest unit in which the magnitude exceeds 1 -/
+theorem unit_choice (v : Val) (hx : v.exact) (hd : v.dbl) :
+    (humanUnit v = .gb ↔ 1073741824 < |v.rat|) ∧
+    (humanUnit v = .mb ↔ 1048576 < |v.rat| ∧ |v.rat| ≤ 1073741824) ∧
+    (humanUnit v = .kb ↔ 1024 < |v.rat| ∧ |v.rat| ≤ 1048576) ∧
+    (humanUnit v = .bytes ↔ |v.rat| ≤ 1024) := by
+  have hg := size_conversion_exact .gb v hx hd
+  have hm := size_conversion_exact .mb v hx hd
+  have hk := size_conversion_exact .kb v hx hd
+  simp only [HUnit.fmt, HUnit.factor] at hg hm hk
+  have key : ∀ (x f : ℚ), 0 < f → x * f = v.rat → ((x > 1 ∨ x < -1) ↔ f < |v.rat|) := by
+    intro x f hf hxf
+    rw [← hxf, abs_mul, abs_of_pos hf]
+    have h1 : f < |x| * f ↔ 1 < |x| := by
+      constructor
+      · intro h; by_contra hc; rw [not_lt] at hc; nlinarith [abs_nonneg x]
+      · intro h; nlinarith
+    rw [h1, lt_abs]
+    constructor
+    · rintro (h | h)
+      · left; exact h
+      · right; linarith
+    · rintro (h | h)
+      · left; exact h
+      · right; linarith
+  have kg := key _ 1073741824 (by norm_num) hg
+  have km := key _ 1048576 (by norm_num) hm
+  have kk := key _ 1024 (by norm_num) hk
+  unfold humanUnit
+  simp only []
+  by_cases c1 : (Fmt.bytesToGb.apply v).rat > 1 ∨ (Fmt.bytesToGb.apply v).rat < -1
+  · have := kg.mp c1
+    simp only [c1, if_true]
+    refine ⟨by simp [this], by simp; intro _; linarith, by simp; intro _; linarith, by simp; linarith⟩
+  · have n1 : ¬ (1073741824 < |v.rat|) := fun h => c1 (kg.mpr h)
+    simp only [c1, if_false]
+    by_cases c2 : (Fmt.bytesToMb.apply v).rat > 1 ∨ (Fmt.bytesToMb.apply v).rat < -1
+    · have := km.mp c2
+      simp only [c2, if_true]
+      refine ⟨by simp [n1], by simp [this]; linarith, by simp; intro _; linarith, by simp; linarith⟩
+    · have n2 : ¬ (1048576 < |v.rat|) := fun h => c2 (km.mpr h)
+      simp only [c2, if_false]
+      by_cases c3 : (Fmt.bytesToKb.apply v).rat > 1 ∨ (Fmt.bytesToKb.apply v).rat < -1
+      · have := kk.mp c3
+        simp only [c3, if_true]
+        refine ⟨by simp [n1], by simp [n2], by simp [this]; linarith, by simp; linarith⟩
+      · have n3 : ¬ (1024 < |v.rat|) := fun h => c3 (kk.mpr h)
+        simp only [c3, if_false]
+        refine ⟨by simp [n1], by simp [n2], by simp [n3], by simp; linarith⟩
+
+/-- **disk_row_values**: a per-field disk usage row carries the unit chosen from the smaller of the two values,
+    and in that unit the Baseline / Contender cells are exactly the stored byte counts (so the Diff cell, built by
+    the same formatter from `contender − baseline`, is the difference in that unit); being an `mkRow` row it also
+    obeys `colour_follows_direction`, `prints_zero_is_neutral`, `swap_antisymmetric`. -/
+theorem disk_row_values (plain incGood pctAbs : Bool) (label : Str) (bv cv : Val)
+    (hb : bv.exact) (hc : cv.exact) (hbd : bv.dbl) (hcd : cv.dbl) :
+    let u := humanUnit (pymin bv cv)
+    let r := diskRow plain incGood pctAbs label bv cv
+    r.unit = some u.str ∧ r.label = label ∧ r.task = [] ∧
+    r.base.rat * u.factor = bv.rat ∧ r.cont.rat * u.factor = cv.rat ∧
+    r.diff = mkCell plain incGood 5 false (u.fmt.apply (cv.sub bv)) ∧
+    (pymin bv cv = bv ∨ pymin bv cv = cv) ∧ (pymin bv cv).rat ≤ bv.rat ∧ (pymin bv cv).rat ≤ cv.rat :=
+  ⟨rfl, rfl, rfl, size_conversion_exact _ bv hb hbd, size_conversion_exact _ cv hc hcd, rfl,
+    by unfold pymin; split_ifs <;> simp,
+    by unfold pymin; split_ifs with h <;> [exact le_of_lt h; exact le_refl _],
+    by unfold pymin; split_ifs with h <;> [exact le_refl _; exact not_lt.mp h]⟩
+
+/-- the per-field disk usage rows of the implementation are lower-is-better and divide by `abs(baseline)` (probed) -/
+theorem disk_rows_direction : CompareRows.diskIncGood = false ∧ CompareRows.diskPctAbs = true := by decide
+
+/-- the rows with a fixed size unit (store / dataset / translog size, heap usage) name the unit of their formatter,
+    so `size_conversion_exact` applies to them with that unit -/
+theorem fixed_size_rows_unit :
+    ∀ s ∈ allSpecs CompareRows.blocks, ∀ u ∈ [HUnit.gb, HUnit.mb, HUnit.kb], s.fmt = u.fmt → s.unit = .const u.str := by
+  decide
+
+/-! ## compare(baseline_id, contender_id): the two races are the ones that were named -/
+
+/-- **compare_uses_named_races**: a comparison by id shows the table of a stored race whose id *is* the baseline id
+    and one whose id *is* the contender id (the only ones, ids being directory names) -/
+theorem compare_uses_named_races (blocks : List Block) (plain showProc : Bool) (store : List (Str × Stats))
+    (bid cid : Str) (rows : List Row) (h : compareById blocks plain showProc store bid cid = .ok rows) :
+    ∃ b c, (bid, b) ∈ store ∧ (cid, c) ∈ store ∧ metricsTable blocks plain showProc b c = .ok rows ∧
+      ((store.map Prod.fst).Nodup → ∀ b' c', (bid, b') ∈ store → (cid, c') ∈ store →
+        metricsTable blocks plain showProc b' c' = .ok rows) := by
+  unfold compareById findRace at h
+  cases hb : lookup bid store with
+  | none => simp [hb] at h
+  | some b =>
+    cases hc : lookup cid store with
+    | none => simp [hb, hc] at h
+    | some c =>
+      simp only [hb, hc] at h
+      refine ⟨b, c, lookup_mem hb, lookup_mem hc, h, ?_⟩
+      intro hnd b' c' hb' hc'
+      have e1 := lookup_of_nodup hnd hb'
+      have e2 := lookup_of_nodup hnd hc'
+      rw [hb] at e1; rw [hc] at e2
+      cases e1; cases e2; exact h
+
+/-- an id that no stored race has – for instance a proper prefix of one – is an error, never another race -/
+theorem compare_unknown_id (blocks : List Block) (plain showProc : Bool) (store : List (Str × Stats)) (bid cid : Str)
+    (h : (∀ p ∈ store, p.1 ≠ bid) ∨ (∀ p ∈ store, p.1 ≠ cid)) :
+    compareById blocks plain showProc store bid cid = .error .notFound := by
+  unfold compareById findRace
+  rcases h with h | h
+  · rw [lookup_none h]
+  · rw [lookup_none h]
+    cases lookup bid store <;> rfl
+
 /-! ## non-vacuity: the hypotheses are satisfiable and the statements talk about real rows -/
 
 def gcCount : RowSpec := ⟨['k'], ['G', 'C'], .const [], false, .ident, false, false⟩
@@ -759,6 +891,16 @@ example :
     let l : List TaskM := [⟨some ['w'], ['b'], sc (.int 1)⟩, ⟨some ['b'], ['b'], sc (.int 2)⟩]
     (l.map TaskM.name).Nodup ∧ (findTask ['b'] l).map (fun t => t.sc.vals.length) = some 1 ∧
       (findTask ['b'] l).map TaskM.task = some (some ['b']) := by decide
+/-- the hypotheses of size_conversion_exact are satisfiable: 3 GiB as an int is exact and a double … -/
+example : (Val.int 3221225472).exact ∧ (Val.int 3221225472).dbl := by
+  have := Dbl.fl_natCast (n := 3221225472) (by norm_num)
+  have h2 : Dbl.fl (((3221225472 : ℤ).natAbs : ℕ) : ℚ) = (((3221225472 : ℤ).natAbs : ℕ) : ℚ) := by simpa using this
+  exact ⟨h2, by
+    unfold Val.dbl
+    simp only [Val.toSM]
+    rw [h2, h2]⟩
+/-- … and a store in which `n1` is a proper prefix of `n10` -/
+example : compareById [] true false [(['n', '1', '0'], ⟨⟨[], []⟩, [], []⟩)] ['n', '1'] ['n', '1', '0'] = .error .notFound := rfl
 /-- exact ints exist (hypothesis of colour_follows_direction) -/
 example : (Val.int 7).exact ∧ (Val.flt ⟨true, 1 / 2⟩).exact := by
   constructor
